@@ -191,7 +191,16 @@ def run_rv_case(case, res):
 def run_toy_case(case, res):
     from . import toy as T
 
-    sim, ref = T.setup(case)
+    if case.get("size"):
+        # a TOY machine with another memory size (public constructor argument): the words are still 16 bits wide and
+        # the program counter is still shown as a 12-bit value
+        from architecture_simulator.simulation.toy_simulation import ToySimulation
+
+        sim = ToySimulation(case["size"])
+        sim.load_program(case["text"])
+        res.count("toy_other_memory_sizes")
+    else:
+        sim, ref = T.setup(case)
     k = 0
     while True:
         st = sim.state
@@ -220,6 +229,8 @@ def run_toy_case(case, res):
                 res.count("toy_ir_vs_fetched_word")
                 irv = fetched
         for key, val, n in (("accu", int(st.accu), 16), ("pc", int(st.program_counter), 12), ("ir", irv, 16)):
+            if not sim.has_instructions():
+                break  # nothing is loaded: the register boxes are blank by design, there is no value to denote
             if val is None:
                 if tuple(rr[key]) != ("", "", "", ""):
                     res.violation("C17", "toy-register-repr", "%s shown as %r although no instruction is loaded" % (key, rr[key]), case)
@@ -315,6 +326,9 @@ def run_shard(spec, res):
             from . import toy as T
 
             case = T.gen_prog_case(rng)
+            if rng.random() < 0.25:
+                sz_ = rng.choice([64, 256, 1024, 2048, 5000])
+                case = {"text": T.gen_source(rng, sz_)["text"], "size": sz_, "pokes": {}, "acc": 0}
             case["kind"] = "toy"
             case["max_steps"] = 60
         guarded(run_case, "C17", case, res)
